@@ -33,7 +33,18 @@ def run(cmd, env=None, cwd=None, timeout=3000):
 
 try:
     run(["git", "-C", "/repo", "worktree", "add", "-q", "--detach", str(wt), "HEAD"])
-    r = run(["git", "-C", str(wt), "apply", str((src_dir / "patch.diff").resolve())])
+    patch = str((src_dir / "patch.diff").resolve())
+    r = run(["git", "-C", str(wt), "apply", patch])
+    out["patch_method"] = "git apply"
+    if r.returncode != 0:
+        # the patch was written against an earlier HEAD of /repo (before later fix: commits touched the same file):
+        # fall back to a three-way merge, then to patch(1) with fuzz
+        r = run(["git", "-C", str(wt), "apply", "-3", patch])
+        out["patch_method"] = "git apply -3"
+        if r.returncode != 0 or run(["git", "-C", str(wt), "diff", "--name-only", "--diff-filter=U"]).stdout.strip():
+            run(["git", "-C", str(wt), "checkout", "-q", "--", "."])
+            r = run(["patch", "-p1", "--fuzz=3", "-s", "-i", patch], cwd=str(wt))
+            out["patch_method"] = "patch --fuzz=3"
     out["patch_applies"] = r.returncode == 0
     if r.returncode != 0:
         out["error"] = r.stderr[-500:]
